@@ -599,10 +599,15 @@ class Ovld:
         self._update()
 
     def _update(self):
-        if self._compiled:
-            self.compile()
-        for child in self.children:
-            child._update()
+        try:
+            if self._compiled:
+                self.compile()
+        finally:
+            # Whether or not this rebuild went through (invalid method,
+            # interruption), the linked variants must not keep dispatching
+            # over the previous definitions.
+            for child in self.children:
+                child._update()
         if hasattr(self, "dispatch"):
             self.dispatch.__doc__ = self.mkdoc()
 
